@@ -82,6 +82,7 @@ claim("C12", "proof",
       "DESIGN.md section 6, C12")
 
 HOOK_COMMITS.append("89599d9")
+HOOK_COMMITS.append("64013ba")   # named schedule points in the mesh render (C11)
 
 claim("C16", "proof",
       "Coq theorems: Deck construction and tape evaluation with ORACLE clauses compute the denotation when every oracle clause "
